@@ -298,6 +298,6 @@ impl Parameters {
 }
 
 #[cfg(kani)]
-mod verif {
+pub(crate) mod verif {
     include!(concat!(env!("PROFIRUST_VERIF_HARNESS"), "/fdl_parameters.rs"));
 }
